@@ -102,6 +102,8 @@ def run(ctx, chk):
         for k in c.consts:
             if k['name'] == 'CLOCKBOUND_SHM_DEFAULT_PATH' and 'str' in k:
                 paths[c.name] = k['str']
+    for cr, pth in common.segment_paths_used(fb).items():
+        paths.setdefault(cr, pth)          # the constant that really reaches ShmWriter::new / new_with_path, whatever it is called
     # ---- C side
     hpath = os.path.join(ctx.repo, 'clock-bound-ffi/include/clockbound.h')
     cf = cabi.CFacts(hpath)
